@@ -197,13 +197,14 @@ PROPS = {
     ),
     "C10": dict(
         level="exploration",
-        level_text="Generated monotonic fits (1..3 dims, orders 1..4, every choice of monotonic dimension, adversarial data shapes: decreasing, oscillating, noisy, step, constant; sparse; varying and zero weights; smoothing 0..1e6) must return coefficients that are non-decreasing along the monotonic dimension in every fibre (compared exactly in float) and a non-negative derivative along it in the fully supported region; when the data come from a spline with positive increasing coefficients (constraint inactive) the monotonic fit must reproduce the unconstrained solution to single precision. Each fit runs in a forked child under a watchdog.",
+        level_text="Generated monotonic fits (1..3 dims, orders 1..4, every choice of monotonic dimension, adversarial data shapes: decreasing, oscillating, noisy, step, constant; sparse; varying and zero weights; smoothing 0..1e6) must return coefficients that are non-decreasing along the monotonic dimension in every fibre (compared exactly in float) and a non-negative derivative along it in the fully supported region; when the data come from a spline with positive increasing coefficients (constraint inactive) the monotonic fit must reproduce the unconstrained solution to single precision. Each fit runs in a forked child under a watchdog. A third sub-property keeps non-zero smoothing (1e-3..3, in the monotonic and/or the other dimensions, penalty orders 0..order): when the unconstrained minimiser of the same penalised objective (dense long-double reference) is non-negative and increasing with a margin, the monotonic fit has to return it to single precision. The data are multiplied by 1e-12..1e4 in the first sub-property (the solver's tolerances are absolute).",
         level_note="Whether the constraint is active is decided from the independent long-double reference solution of C09. Thread schedules are C12's dimension (OMP_NUM_THREADS=2 here).",
         technique="property-based testing (rapidcheck, fork-isolated) with an invariant oracle and a reference-model oracle for the inactive case",
-        units=[U("c10_mono", "c10_mono.cpp", quick=900, thorough=120000, names=["monotone_any_data", "inactive_constraint"])],
+        units=[U("c10_mono", "c10_mono.cpp", quick=900, thorough=120000, names=["monotone_any_data", "inactive_constraint", "inactive_constraint_smoothed"])],
         rule="Non-trivial: the constraint is active (the unconstrained reference solution violates non-negativity or monotonicity), or the inactive-constraint sub-property; "
              "distinct = hash(monodim, orders, knots, data, weights).",
-        essential={"monotone_any_data": {"constraint:active": 0.2, "monodim:interior": 0.03, "sparse": 0.1}, "inactive_constraint": {"constraint:inactive": 0.9}},
+        essential={"monotone_any_data": {"constraint:active": 0.2, "monodim:interior": 0.03, "sparse": 0.1}, "inactive_constraint": {"constraint:inactive": 0.9},
+                   "inactive_constraint_smoothed": {"smoothing:other_dimension": 0.2, "smoothing:monotonic_dimension": 0.4}},
         assumptions=["reference normal equations of C09 (fitgen.hpp)"],
     ),
     "C13": dict(
